@@ -121,13 +121,31 @@ func (g *DirectedTargetGraph) GetDependencies(target model.BuildNode) []model.Bu
 	return g.inEdges[target.GetLabel()]
 }
 
+// GetTargetDependencies returns the targets that node directly depends on.
+// A dependency on an alias counts as a dependency on the target the alias
+// (transitively) points to, so that a change of the actual target reaches
+// every target that refers to it through the alias.
 func (g *DirectedTargetGraph) GetTargetDependencies(node model.BuildNode) []*model.Target {
 	var targets []*model.Target
-	for _, dependency := range g.GetDependencies(node) {
-		if target, ok := dependency.(*model.Target); ok {
-			targets = append(targets, target)
+	seen := make(map[label.TargetLabel]bool)
+
+	var collect func(current model.BuildNode)
+	collect = func(current model.BuildNode) {
+		for _, dependency := range g.GetDependencies(current) {
+			if seen[dependency.GetLabel()] {
+				continue
+			}
+			seen[dependency.GetLabel()] = true
+
+			switch typedDependency := dependency.(type) {
+			case *model.Target:
+				targets = append(targets, typedDependency)
+			case *model.Alias:
+				collect(typedDependency)
+			}
 		}
 	}
+	collect(node)
 	return targets
 }
 
